@@ -564,6 +564,10 @@ func RunMapInitExpr(ctx *Task, expr *ast.MapLiteral) *errchain.PlError {
 // }
 
 func RunIndexExprGet(ctx *Task, expr *ast.IndexExpr) *errchain.PlError {
+	if expr.Obj == nil {
+		return NewRunError(ctx,
+			"index expression without object", ast.WrapIndexExpr(expr).StartPos())
+	}
 	key := expr.Obj.Name
 
 	varb, err := ctx.GetKey(key)
@@ -939,6 +943,10 @@ func RunAssignmentExpr(ctx *Task, expr *ast.AssignmentExpr) *errchain.PlError {
 			case ast.TypeIdentifier:
 				ctx.SetVarb(e.Identifier().Name, r)
 			case ast.TypeIndexExpr:
+				if e.IndexExpr().Obj == nil {
+					return NewRunError(ctx,
+						"index expression without object", e.StartPos())
+				}
 				if varb, err := ctx.GetKey(e.IndexExpr().Obj.Name); err != nil {
 					return NewRunError(ctx, err.Error(), e.IndexExpr().Obj.Start)
 				} else {
@@ -955,6 +963,10 @@ func RunAssignmentExpr(ctx *Task, expr *ast.AssignmentExpr) *errchain.PlError {
 			case ast.TypeIdentifier:
 				ctx.SetVarb(e.Identifier().Name, vals[i])
 			case ast.TypeIndexExpr:
+				if e.IndexExpr().Obj == nil {
+					return NewRunError(ctx,
+						"index expression without object", e.StartPos())
+				}
 				if varb, err := ctx.GetKey(e.IndexExpr().Obj.Name); err != nil {
 					return NewRunError(ctx, err.Error(), e.IndexExpr().Obj.Start)
 				} else {
